@@ -28,7 +28,10 @@ import (
 	"verif/rewrite"
 )
 
-const repo = "/repo"
+// repo is the tree the checks are built from. It is /repo for every registered command; the
+// diagnostic variable VERIF_REPO points the driver at a scratch worktree instead (used to try the
+// checks on seeded changes without touching /repo; such runs never write evidence).
+var repo = envOr("VERIF_REPO", "/repo")
 
 var fsPkgs = []string{"pkg/goDB/storage/gpfile", "pkg/goDB", "pkg/goDB/info", "cmd/gpdb/pkg/csvimport"}
 var syncPkgs = []string{"pkg/capture", "pkg/goprobe/writeout"}
@@ -271,7 +274,11 @@ func build(verifDir, scratch string, eng *engine, mut *mutant, extraTags []strin
 	}
 	bin := filepath.Join(scratch, eng.Name+suffix+".test")
 	tags := append([]string{"verif"}, extraTags...)
-	args := []string{"test", "-c", "-tags", strings.Join(tags, ","), "-overlay", rw.OverlayPath, "-o", bin, eng.Pkg}
+	args := []string{"test", "-c", "-tags", strings.Join(tags, ","), "-overlay", rw.OverlayPath, "-o", bin}
+	if repo != "/repo" {
+		args = append(args, "-modfile", altModfile(verifDir, scratch))
+	}
+	args = append(args, eng.Pkg)
 	cmd := exec.Command(goBin(), args...)
 	cmd.Dir = verifDir
 	cmd.Env = goEnv()
@@ -281,6 +288,25 @@ func build(verifDir, scratch string, eng *engine, mut *mutant, extraTags []strin
 		die("build of %s failed: %v\n%s", eng.Pkg, err, out.String())
 	}
 	return bin, rw
+}
+
+// altModfile writes a copy of go.mod (and go.sum) whose replace directives point at VERIF_REPO.
+func altModfile(verifDir, scratch string) string {
+	mod := filepath.Join(scratch, "alt.mod")
+	if _, err := os.Stat(mod); err == nil {
+		return mod
+	}
+	b, err := os.ReadFile(filepath.Join(verifDir, "go.mod"))
+	if err != nil {
+		die("go.mod: %v", err)
+	}
+	s := strings.ReplaceAll(string(b), "=> /repo", "=> "+repo)
+	if err := os.WriteFile(mod, []byte(s), 0o644); err != nil {
+		die("%v", err)
+	}
+	sum, _ := os.ReadFile(filepath.Join(verifDir, "go.sum"))
+	_ = os.WriteFile(filepath.Join(scratch, "alt.sum"), sum, 0o644)
+	return mod
 }
 
 func runWorkers(bin, scratch, id, tier string, seed int64, workers int, tc tierCfg, knownPath string, det bool) []*h.WorkerResult {
@@ -598,7 +624,7 @@ func aggregate(verifDir, scratch string, bins map[string]string, id string, eng 
 		reported = append(reported, c)
 		code = 1
 	}
-	if writeEvidence && mut == nil {
+	if writeEvidence && mut == nil && repo == "/repo" {
 		ev := map[string]any{
 			"property_id": id,
 			"tier":        tier,
